@@ -42,6 +42,7 @@ func copyTree(src, dst string) {
 		}
 		data, _ := os.ReadFile(p)
 		os.WriteFile(q, data, 0666)
+		os.Chtimes(q, info.ModTime(), info.ModTime()) // file ages are part of the state (old locks)
 		return nil
 	})
 }
@@ -53,12 +54,14 @@ type faultState struct {
 	start     time.Time
 	modeOn    bool
 	exported  bool
+	rule      func(op, path string) int // persistent fault of the next runPlan (nil: none)
 	asof      time.Time
 	head      []string // the case line's fields describing the initial state
 	nCaseDirs int
 }
 
 type faultResult struct {
+	fired     map[int]int // index -> kind of the faults that fired (the index plan equivalent to plan + rule)
 	ncalls    int
 	log       []string
 	escaped   string
@@ -86,6 +89,7 @@ func (fs *faultState) runPlan(plan map[int]int) (string, faultResult) {
 		}
 	})
 	vos.Reset(plan, callBudget)
+	vos.Rule = fs.rule
 	vos.ResetTemp()
 	var buf bytes.Buffer
 	log.SetOutput(&buf)
@@ -108,6 +112,7 @@ func (fs *faultState) runPlan(plan map[int]int) (string, faultResult) {
 	}()
 	log.SetOutput(io.Discard)
 	res.ncalls = vos.Calls
+	res.fired = vos.FiredKinds
 	res.log = append([]string(nil), vos.Log...)
 	res.recovered = strings.Contains(buf.String(), "upload recover")
 	if vos.Calls > callBudget || vos.Hung {
@@ -250,6 +255,55 @@ func faultCases(n int, w *world, dir string, cfg *telemetry.UploadConfig, start 
 				out.Note("fault-" + vos.KindName[k] + "-Post")
 			}
 		}
+	}
+	// persistent faults: the same call fails however often it is repeated (a read-only upload
+	// directory, names of local/ that cannot be removed, a full disk); the case carries the
+	// equivalent index plan (the indices at which the rule fired)
+	inUp := func(path string) bool {
+		return strings.HasPrefix(path, "upload/") || strings.Contains(path, "/upload/")
+	}
+	rules := []struct {
+		name string
+		f    func(op, path string) int
+	}{
+		{"upload-readonly", func(op, path string) int {
+			if inUp(path) && (op == "Remove" || op == "OpenFile" || op == "WriteFile" || op == "MkdirAll" || op == "Rename") {
+				return vos.KEACCES
+			}
+			return vos.KOk
+		}},
+		{"upload-no-remove", func(op, path string) int {
+			if inUp(path) && op == "Remove" {
+				return vos.KEACCES
+			}
+			return vos.KOk
+		}},
+		{"no-remove", func(op, path string) int {
+			if op == "Remove" {
+				return vos.KEIO
+			}
+			return vos.KOk
+		}},
+		{"disk-full", func(op, path string) int {
+			if op == "Write" || op == "WriteFile" {
+				return vos.KENOSPC
+			}
+			return vos.KOk
+		}},
+	}
+	for _, rl := range rules {
+		if casesDone >= n {
+			break
+		}
+		fs.rule = rl.f
+		cd, r := fs.runPlan(nil)
+		fs.rule = nil
+		if len(r.fired) == 0 && !r.hang {
+			os.RemoveAll(cd)
+			continue // the rule met no call on this state: the no-fault run again
+		}
+		fs.emit("rule", r.fired, cd, r)
+		out.Note("rule-" + rl.name)
 	}
 	if thorough && stateIdx <= 3 {
 		lim := base.ncalls
